@@ -199,6 +199,34 @@ def dispatch(sx):
     sx.check(len([x for x in log if x[0] == "can"]) > len(asked) or n == 0, "eng.engine-goes-on-after-handler-exception")
 
 
+def cleanup_race(sx):
+    """another thread registers a handler while _cleanup_handlers is between its locked sections (stepped with a
+    lock double that runs the other thread's call at a chosen acquisition): the new handler must survive"""
+    from geckolib.driver import GeckoUdpSocket
+    from .c16 import _HookLock
+    clock = Clock(0)
+    s = GeckoUdpSocket(MockSocket(clock))
+    log = []
+    old = [RH(i, False, False, log) for i in range(2)]
+    for h in old:
+        s.add_receive_handler(h)
+    removing = bool(sx.choice("a_handler_is_being_removed", 2))
+    old[0].should_remove_handler = removing
+    late = RH("late", True, False, log)
+    at = 1 + sx.choice("other_thread_runs_before_acquisition", 5)
+    s._lock = _HookLock(at, lambda: s._receive_handlers.append(late))
+    s._cleanup_handlers()
+    ran = s._lock.n >= at
+    if ran:
+        sx.check(late in s._receive_handlers, "eng.handler-added-during-cleanup-survives", lambda: f"at acquisition {at}")
+    sx.check((old[0] in s._receive_handlers) == (not removing), "eng.cleanup-removes-exactly-the-flagged-handlers")
+    sx.check(old[1] in s._receive_handlers, "eng.cleanup-keeps-the-others")
+    if ran:
+        s._lock = _HookLock(99, lambda: None)
+        s.dispatch_recevied_data(b"DATA", DEST)
+        sx.check(("handle", "late") in log, "eng.late-handler-receives-datagrams")
+
+
 def handler_life(maxretries):
     def scenario(sx):
         from sx.vloop import patched_time
@@ -279,6 +307,18 @@ def handshake(nbits):
             spa._exit_event = threading.Event()
             spa.start_connect()
             bit = [0]
+            drop_seg = [None, 1, 3, 13, 26][sx.choice("lost_status_segment", 5)]
+            dropped = [False]
+
+            def lost_segment(data):
+                """the chosen STATV segment of the first status answer is lost (the rest of that answer arrives)"""
+                if drop_seg is None or dropped[0]:
+                    return False
+                i = data.find(b"<DATAS>STATV")
+                if i >= 0 and data[i + 12] == drop_seg:
+                    dropped[0] = True
+                    return True
+                return False
 
             def lost():
                 if bit[0] < nbits:
@@ -303,7 +343,7 @@ def handshake(nbits):
                     sim._socket._last_send_time = -1.0
                     sim._socket._process_send_requests()
                 for (data, dest, t) in sim._socket._socket.sent:
-                    if not lost():
+                    if not lost() and not lost_segment(data):
                         spa._socket.inbox.append((data, DEST))
                 del sim._socket._socket.sent[:]
                 while spa._socket.inbox:
@@ -328,6 +368,7 @@ def units(tier):
     yield Unit("send-step", send_step)
     yield Unit("pacing-run", pacing_run(3 if q else 4), max_paths=100000)
     yield Unit("dispatch", dispatch, max_paths=100000)
+    yield Unit("cleanup-race", cleanup_race)
     N = 2 if q else 3
     for n in range(N + 1):
         yield Unit(f"handler-life.retries{n}", handler_life(N), presets={"retries": n}, max_paths=400000, max_depth=3000)
